@@ -72,8 +72,12 @@ pub fn no_uturn(minus: &State, plus: &State) -> (bool, f64) {
     let nd = diff.iter().map(|v| v * v).sum::<f64>().sqrt();
     let nm = minus.p.iter().map(|v| v * v).sum::<f64>().sqrt();
     let np = plus.p.iter().map(|v| v * v).sum::<f64>().sqrt();
+    // the difference of two positions carries their absolute rounding error: far from the origin
+    // (|x| >> |x+ - x-|) the sign of the dot product is decided by that error, so the margin is
+    // taken relative to the positions' own magnitude as well
+    let nx = minus.x.iter().map(|v| v * v).sum::<f64>().sqrt() + plus.x.iter().map(|v| v * v).sum::<f64>().sqrt();
     let rel = |dot: f64, a: f64, b: f64| if a * b > 0.0 { (dot / (a * b)).abs() } else { 0.0 };
-    let margin = rel(dm, nd, nm).min(rel(dp, nd, np));
+    let margin = rel(dm, nd + nx, nm).min(rel(dp, nd + nx, np));
     (dm >= 0.0 && dp >= 0.0, if margin.is_nan() { f64::INFINITY } else { margin })
 }
 
